@@ -221,8 +221,8 @@ void env_swap__pA_pA (struct Alloc *a, struct Alloc *b) { struct Alloc t = *a; *
 const unsigned long *env_min__pcul_pcul (const unsigned long *a, const unsigned long *b) { return (*b < *a) ? b : a; }
 void env_swap__ppE_ppE (Elem **a, Elem **b) { Elem *t = *a; *a = *b; *b = t; }
 void env_swap__pul_pul (unsigned long *a, unsigned long *b) { unsigned long t = *a; *a = *b; *b = t; }
-void env_advance__ppE_l (Elem **it, long n) { *it = *it + n; }
-void env_advance__ppcE_l (const Elem **it, long n) { *it = *it + n; }
+void env_advance__ppE_l (Elem **it, long n) { if (n != 0) *it = *it + n; }   /* p + 0 is defined for every p in C++, the null pointer included */
+void env_advance__ppcE_l (const Elem **it, long n) { if (n != 0) *it = *it + n; }
 long env_distance__pE_pE (Elem *first, Elem *last) { return last - first; }
 long env_distance__pcE_pcE (const Elem *first, const Elem *last) { return last - first; }
 
@@ -247,7 +247,9 @@ static unsigned long pick_done (unsigned long n, int may_throw, _Bool *threw)
    move: sources are left moved-from.  Returns the number of elements fully assigned. */
 static unsigned long range_assign (Elem *dst, const Elem *src, unsigned long n, int move, int backward, int may_throw, unsigned kind)
 {
+  if (n == 0) return 0;       /* empty ranges may be null */
   const Elem *src_end = src + n; Elem *dst_end = dst + n;
+  if (n == 0) return 0;
   __CPROVER_assert (__CPROVER_r_ok (src, n << ESZ_LOG2), "[C03,C13] algorithm reads outside the source elements' storage");
   __CPROVER_assert (__CPROVER_w_ok (dst, n << ESZ_LOG2), "[C03,C12,C13] algorithm writes outside the destination elements' storage");
 #define RA_LIVE(i) REQ_LIVE_RANGE1 (i, src, src_end) REQ_LIVE_RANGE1 (i, dst, dst_end)
@@ -298,6 +300,7 @@ Elem *env_move__pE_pE_pE (Elem *first, Elem *last, Elem *d)
 
 Elem *env_move_backward__pE_pE_pE (Elem *first, Elem *last, Elem *d_last)
 {
+  if (first == last) return d_last;
   REQ_RANGE (first, last, "std::move_backward");
   __CPROVER_assert (!(SAMEOBJ (d_last, first) && OFF (d_last) > OFF (first) && OFF (d_last) <= OFF (last)), "[C03] std::move_backward: destination end inside (first, last]");
   unsigned long n = DIVESZ (OFF (last) - OFF (first));
@@ -308,6 +311,7 @@ Elem *env_move_backward__pE_pE_pE (Elem *first, Elem *last, Elem *d_last)
 /* fill: every element of [first, last) is assigned the (current) value of *val */
 static unsigned long range_fill (Elem *first, unsigned long n, const Elem *val)
 {
+  if (n == 0) return 0;
   Elem *last = first + n;
   __CPROVER_assert (__CPROVER_w_ok (first, n << ESZ_LOG2), "[C03,C12,C13] fill writes outside the elements' storage");
   req_storage_r (val);
